@@ -33,7 +33,7 @@ def c13():
         j.append(K("c13_serde::c13_window_advswap_len%d" % n,
                    TOK + "same with the fields in the order {index, buf} (struct handed to the derived visitor as a map keyed by name), len %d" % n,
                    features=F, stubbing=True, encodes=WDE, cost=30, timeout=600, tier="q" if n in (0, 2) else "t"))
-    for n, tier in ((254, "q"), (255, "q"), (256, "t"), (300, "t")):
+    for n, tier in ((254, "q"), (255, "q"), (256, "t"), (300, "q")):
         j.append(K("c13_serde::c13_window_adv_unit%d" % n,
                    TOK + "Window<()> buffer of %d zero-sized elements (the validation does not depend on T), index any u64: Err iff len >= PeriodType::MAX or index >= len, never a panic, no truncated length" % n,
                    features=F, stubbing=True, encodes=WDE, cost=75, timeout=900, tier=tier))
